@@ -50,6 +50,8 @@ pub struct DefaultInfo<T> {
     pub(crate) prev_gap_abs: T,
     /// relative duality gap from previous iteration
     pub(crate) prev_gap_rel: T,
+    /// κ/τ from previous iteration
+    pub(crate) prev_ktratio: T,
     /// solve time
     pub solve_time: f64,
     /// solver status
@@ -235,6 +237,7 @@ where
         self.prev_res_dual = self.res_dual;
         self.prev_gap_abs = self.gap_abs;
         self.prev_gap_rel = self.gap_rel;
+        self.prev_ktratio = self.ktratio;
 
         prev_variables.copy_from(variables);
     }
@@ -246,6 +249,7 @@ where
         self.res_dual = self.prev_res_dual;
         self.gap_abs = self.prev_gap_abs;
         self.gap_rel = self.prev_gap_rel;
+        self.ktratio = self.prev_ktratio;
 
         variables.copy_from(prev_variables);
     }
